@@ -14,6 +14,19 @@ MCInit ==
   /\ snap = [t \in Tasks |-> 0]
   /\ InitState
 
+\* C07: two changes in flight, every mix of serialized kinds, hooks of two snaps
+KindChoices == {"neutral", "hook", "iface", "prereq", "gadget"}
+MCInitKinds ==
+  /\ chgOf = [t \in Tasks |-> IF t <= (N + 1) \div 2 THEN 1 ELSE 2]
+  /\ waits \in {w \in [Tasks -> SUBSET Tasks] :
+                 \A t \in Tasks : w[t] \subseteq {u \in 1..(t-1) : chgOf[u] = chgOf[t]} /\ Cardinality(w[t]) <= 1}
+  /\ lanes = [t \in Tasks |-> <<0>>]
+  /\ hasUndo = [t \in Tasks |-> TRUE]
+  /\ kind \in [Tasks -> KindChoices]
+  /\ snap \in {sn \in [Tasks -> {1, 2}] : \A t \in Tasks : kind[t] # "hook" => sn[t] = 1}
+  /\ InitState
+MCSpecKinds == MCInitKinds /\ [][Next]_vars
+
 MCSpec == MCInit /\ [][Next]_vars
 MCLive == MCInit /\ [][Next]_vars /\ Fairness
 
